@@ -383,3 +383,51 @@ def outcome(fn):
         if isinstance(e, (KeyboardInterrupt, SystemExit)):
             raise
         return type(e).__name__, str(e)
+
+
+# --------------------------------------------------------------------------
+# Observing the implementation
+# --------------------------------------------------------------------------
+EXN = {
+    "ValueError": "ValueError", "TypeError": "TypeError", "SpaTypeError": "SpaTypeError",
+    "SpaParseError": "SpaParseError", "ValidationError": "ValidationError",
+    "NotImplementedError": "NotImplementedErr", "ZeroDivisionError": "ZeroDivisionError",
+    "ImportError": "ImportError", "ModuleNotFoundError": "ImportError", "KeyError": "KeyError",
+    "SpaActionSelectionError": "SpaActionSelectionError", "AttributeError": "AttributeError",
+    "StopIteration": "StopIteration",
+}
+
+
+def observe(fn):
+    """Run fn capturing warnings: ('ok', value, deprecation?, [warning classes]) or (exn, msg)."""
+    import warnings as _w
+    with _w.catch_warnings(record=True) as rec:
+        _w.simplefilter("always")
+        try:
+            val = fn()
+        except BaseException as e:  # noqa
+            if isinstance(e, (KeyboardInterrupt, SystemExit)):
+                raise
+            return (type(e).__name__, str(e)[:200])
+    classes = sorted({r.category.__name__ for r in rec
+                      if "numpy.core" not in str(r.message)})
+    return ("ok", val, "DeprecationWarning" in classes, classes)
+
+
+def obs_term(o, enc):
+    """Coq term of type [obs _] for an observation made by observe()."""
+    if o[0] == "ok":
+        return f"(OVal {enc(o[1])} {b(o[2])})"
+    return f"(OExn {EXN.get(o[0], 'OtherError')})"
+
+
+def obs_json(o):
+    if o[0] == "ok":
+        v = o[1]
+        try:
+            import numpy as np
+            v = np.asarray(v).tolist()
+        except Exception:  # noqa
+            v = repr(v)
+        return {"ok": v, "warnings": o[3]}
+    return {"raised": o[0], "message": o[1]}
